@@ -15,6 +15,22 @@ package xlate
 // iteration of the receiving loop).  Anything else that could matter becomes
 // LUnknown.  Mirrored by a Go copy of the checker (LockViolations); the Coq
 // case compares that copy's answer with the verified checker's.
+//
+// Aliases of guarded containers.  A Go slice or map value is a header: copying
+// it (ml := s.Metrics[name]; lists = append(lists, ml); for _, ml := range
+// s.Metrics; lvs := m.LabelValues; a helper that returns it) copies no element.
+// A local that received such a header is typed with the owner's symbol
+// (MetricSlice/MetricMap/LVSlice/LVMap/HandleMap with sym >= 0; MetricLists is
+// a local slice or map OF such headers) and every element access through it -
+// index, range, copy from, append(x, alias...) as reads; alias[i] = v,
+// append(alias, ...), copy to, delete as writes - is an access to the guarded
+// field of the owner at that point of the code, whatever lock is (still) held
+// there.  len/cap/nil tests read the local header only.  Where the alias
+// leaves what the translator follows (argument of an untranslated function,
+// return value of an entry, channel send, store into a field or an untracked
+// container, composite literal, capture by a go/defer literal) the result is
+// LUnknown.  A clone (append([]*Metric(nil), ml...), copy into a made slice)
+// reads the elements where it stands and yields an unaliased local.
 
 import (
 	"fmt"
@@ -365,11 +381,14 @@ type LockXlate struct {
 	Pkgs    map[string]*Pkg // "metrics", "datum", "exporter"
 	Sites   []Site
 	siteIdx map[string]int
+	// container-typed result of the latest inlining of a call (set by inline,
+	// read by typeOf right after the call's accesses were emitted)
+	retTypes map[*ast.CallExpr]val
 }
 
 func NewLockXlate(metrics, datum, exporter *Pkg) *LockXlate {
 	return &LockXlate{Pkgs: map[string]*Pkg{"metrics": metrics, "datum": datum, "exporter": exporter},
-		Sites: []Site{{Fn: "-", Field: "branch outside a loop"}}, siteIdx: map[string]int{}}
+		Sites: []Site{{Fn: "-", Field: "branch outside a loop"}}, siteIdx: map[string]int{}, retTypes: map[*ast.CallExpr]val{}}
 }
 
 // WithRuntime adds internal/runtime (handles table, vm input channels).
@@ -408,6 +427,7 @@ func (x *LockXlate) LineLoopEntry() ([]LNode, error) {
 	var defers []LNode
 	c := &lctx{x: x, pkg: "runtime", fn: "New.lineloop", env: env, nsym: &nsym, top: true, defers: &defers,
 		emitter: &emitterInfo{chans: map[string]int{}}}
+	x.retTypes = map[*ast.CallExpr]val{}
 	return c.block(lit.Body.List), nil
 }
 
@@ -423,8 +443,8 @@ func (x *LockXlate) site(fn, field, pos, kind string) int {
 
 // value of a Go variable during translation
 type val struct {
-	t     string // Metric Store LV LVfresh MetricSlice MetricMap LVSlice LVMap Int Float String Buckets BaseDatum Datum Chan LabelSet Closure Fresh Other
-	sym   int    // object symbol (Metric, Store, datum receiver; for LV*: the owning metric)
+	t     string // Metric Store LV LVfresh MetricSlice MetricMap MetricLists LVSlice LVMap Int Float String Buckets BaseDatum Datum Chan LabelSet Closure Fresh Other
+	sym   int    // object symbol (Metric, Store, datum receiver; for LV*: the owning metric; for containers: the owner whose guarded field the header aliases, -1 = a local collection)
 	fresh bool   // not yet published: accesses are thread-local
 	lit   *ast.FuncLit
 	env   *lenv
@@ -434,6 +454,122 @@ type val struct {
 type lenv struct {
 	vars   map[string]val
 	parent *lenv
+	seq    bool // the scope of the statements that follow a restructured early return: same nesting as its parent
+}
+
+// sameNest: the variable is declared at the current nesting (not outside an
+// enclosing branch or loop), so that an assignment here replaces its value on
+// every path that goes on.
+func (e *lenv) sameNest(n string) bool {
+	for s := e; s != nil; s = s.parent {
+		if _, ok := s.vars[n]; ok {
+			return true
+		}
+		if !s.seq {
+			return false
+		}
+	}
+	return false
+}
+
+// aliasField: the guarded field of the owner (v.sym) that a value of this type
+// is a header copy of; 0 = none.
+func aliasField(v val) int {
+	if v.sym < 0 || v.fresh {
+		return 0
+	}
+	switch v.t {
+	case "MetricSlice", "MetricMap":
+		return 7
+	case "LVSlice":
+		return 1
+	case "LVMap":
+		return 2
+	case "HandleMap":
+		return 14
+	}
+	return 0
+}
+
+// carriesAlias: an alias of a guarded container, or a local collection of such aliases.
+func carriesAlias(v val) bool {
+	return aliasField(v) != 0 || (v.t == "MetricLists" && v.sym >= 0)
+}
+
+// containerKind: declared type -> container tag ("" = not one we track).
+func containerKind(e ast.Expr) string {
+	switch t := e.(type) {
+	case *ast.ParenExpr:
+		return containerKind(t.X)
+	case *ast.ArrayType:
+		if _, isEll := t.Elt.(*ast.Ellipsis); isEll {
+			return ""
+		}
+		switch {
+		case typeName(t.Elt) == "Metric":
+			return "MetricSlice"
+		case typeName(t.Elt) == "LabelValue":
+			return "LVSlice"
+		case containerKind(t.Elt) == "MetricSlice":
+			return "MetricLists"
+		}
+	case *ast.MapType:
+		switch {
+		case containerKind(t.Value) == "MetricSlice":
+			return "MetricLists"
+		case typeName(t.Value) == "LabelValue":
+			return "LVMap"
+		case typeName(t.Value) == "vmHandle":
+			return "HandleMap"
+		}
+	case *ast.Ident:
+		if t.Name == "MetricSlice" { // metrics.MetricSlice (testing.go)
+			return "MetricSlice"
+		}
+	}
+	return ""
+}
+
+// rootIsSelector: e is X.f, X.f[i], X.f[a:b], ... - the access to X.f is
+// emitted by the selector itself at the same point of the code.
+func rootIsSelector(e ast.Expr) bool {
+	for {
+		switch t := e.(type) {
+		case *ast.ParenExpr:
+			e = t.X
+		case *ast.IndexExpr:
+			e = t.X
+		case *ast.SliceExpr:
+			e = t.X
+		case *ast.SelectorExpr:
+			return true
+		default:
+			return false
+		}
+	}
+}
+
+// aliasAcc: the element access of kind a through the container value e.
+func (c *lctx) aliasAcc(at ast.Node, e ast.Expr, a string) []LNode {
+	v := c.typeOf(e)
+	if f := aliasField(v); f != 0 {
+		return c.acc(at, v.sym, f, a)
+	}
+	return nil
+}
+
+// escapes: container aliases among es leave what the translator follows.
+func (c *lctx) escapes(es []ast.Expr, why string) []LNode {
+	var out []LNode
+	for _, e := range es {
+		if _, isLit := e.(*ast.FuncLit); isLit {
+			continue
+		}
+		if carriesAlias(c.typeOf(e)) {
+			out = append(out, c.unknown(e, "alias of a guarded container "+why))
+		}
+	}
+	return out
 }
 
 func (e *lenv) get(n string) (val, bool) {
@@ -462,6 +598,9 @@ type lctx struct {
 	emitOn     bool
 	emitMsym   int
 	innerLoops int
+	// container-typed values returned by the inlined callee being translated
+	rets    *[]val
+	results []string // its named results
 }
 
 func spawnsEmitter(n ast.Node) bool {
@@ -600,6 +739,8 @@ func (c *lctx) typeOf(e ast.Expr) val {
 			return val{t: "MetricSlice", sym: b.sym}
 		case "MetricSlice":
 			return val{t: "Metric", sym: -1} // some metric: needs a Bind at the use
+		case "MetricLists":
+			return val{t: "MetricSlice", sym: b.sym}
 		case "LVSlice", "LVMap":
 			return val{t: "LV", sym: b.sym, fresh: b.fresh}
 		case "BucketSlice":
@@ -611,21 +752,56 @@ func (c *lctx) typeOf(e ast.Expr) val {
 		}
 	case *ast.SliceExpr:
 		return c.typeOf(e.X)
+	case *ast.CompositeLit:
+		switch ck := containerKind(e.Type); ck {
+		case "MetricSlice", "LVSlice", "LVMap", "HandleMap":
+			return val{t: ck, sym: -1}
+		case "MetricLists": // a local collection of list headers: aliases what its elements alias
+			v := val{t: ck, sym: -1}
+			for _, el := range e.Elts {
+				if kv, ok := el.(*ast.KeyValueExpr); ok {
+					el = kv.Value
+				}
+				if ev := c.typeOf(el); ev.t == "MetricSlice" && ev.sym >= 0 {
+					v.sym = ev.sym
+				}
+			}
+			return v
+		}
 	case *ast.CallExpr:
+		if v, ok := c.x.retTypes[e]; ok {
+			return v
+		}
+		if ck := containerKind(e.Fun); ck != "" && len(e.Args) == 1 {
+			// conversion: []*Metric(nil) is a new local, []*Metric(x) is x
+			if av := c.typeOf(e.Args[0]); av.t == ck {
+				return av
+			}
+			return val{t: ck, sym: -1}
+		}
 		if id, ok := e.Fun.(*ast.Ident); ok && id.Name == "append" && len(e.Args) > 0 {
 			for _, a := range e.Args[1:] {
 				if av := c.typeOf(a); av.t == "HLines" { // a collection of vm input channels
 					return val{t: "HLinesSlice", sym: av.sym}
 				}
 			}
-			return c.typeOf(e.Args[0])
+			base := c.typeOf(e.Args[0])
+			if base.t == "MetricLists" {
+				// append(lists, ml) copies the header of ml: the collection aliases what ml aliases
+				for _, a := range e.Args[1:] {
+					if av := c.typeOf(a); (av.t == "MetricSlice" || av.t == "MetricLists") && av.sym >= 0 {
+						base.sym = av.sym
+					}
+				}
+			}
+			return base
 		}
 		if id, ok := e.Fun.(*ast.Ident); ok && id.Name == "make" && len(e.Args) > 0 {
 			if _, isChan := e.Args[0].(*ast.ChanType); isChan {
 				return val{t: "Chan"}
 			}
-			if at, isArr := e.Args[0].(*ast.ArrayType); isArr && typeName(at.Elt) == "Metric" {
-				return val{t: "MetricSlice", sym: -1} // a local collection of published metrics
+			if ck := containerKind(e.Args[0]); ck != "" {
+				return val{t: ck, sym: -1} // a local collection (of published metrics, of list headers, ...)
 			}
 		}
 		if sel, ok := e.Fun.(*ast.SelectorExpr); ok {
@@ -670,6 +846,12 @@ func (c *lctx) expr(e ast.Expr) []LNode {
 	case *ast.CompositeLit:
 		for _, el := range e.Elts {
 			out = append(out, c.expr(el)...)
+			if kv, ok := el.(*ast.KeyValueExpr); ok {
+				el = kv.Value
+			}
+			if containerKind(e.Type) != "MetricLists" {
+				out = append(out, c.escapes([]ast.Expr{el}, "stored in a composite literal")...)
+			}
 		}
 		return out
 	case *ast.TypeAssertExpr:
@@ -677,7 +859,11 @@ func (c *lctx) expr(e ast.Expr) []LNode {
 	case *ast.FuncLit:
 		return []LNode{c.unknown(e, "function literal")}
 	case *ast.IndexExpr:
-		return append(c.expr(e.X), c.expr(e.Index)...)
+		out = append(c.expr(e.X), c.expr(e.Index)...)
+		if !rootIsSelector(e.X) { // an element read through a local alias of a guarded container
+			out = append(out, c.aliasAcc(e, e.X, "R")...)
+		}
+		return out
 	case *ast.SliceExpr:
 		out = c.expr(e.X)
 		out = append(out, c.expr(e.Low)...)
@@ -789,11 +975,25 @@ func (c *lctx) lvalue(e ast.Expr) []LNode {
 		return c.selector(e, "W")
 	case *ast.IndexExpr: // X.f[k] = v  or  X.f[i].g = v handled by selector below
 		out := c.expr(e.Index)
+		if !rootIsSelector(e.X) { // alias[i] = v, lists[i][j] = v: a write to the container it aliases
+			if w := c.aliasAcc(e, e.X, "W"); w != nil {
+				return append(append(out, c.expr(e.X)...), w...)
+			}
+		}
 		return append(out, c.lvalue(e.X)...)
 	case *ast.ParenExpr:
 		return c.lvalue(e.X)
 	case *ast.StarExpr:
 		return c.expr(e.X)
+	case *ast.SliceExpr:
+		return c.lvalue(e.X)
+	case *ast.Ident, *ast.CallExpr:
+		// alias[i] = v, delete(alias, k): a write to the guarded container it aliases
+		var out []LNode
+		if ce, ok := e.(*ast.CallExpr); ok {
+			out = c.expr(ce)
+		}
+		return append(out, c.aliasAcc(e, e, "W")...)
 	}
 	return nil
 }
@@ -956,7 +1156,42 @@ func (c *lctx) call(call *ast.CallExpr) []LNode {
 			return []LNode{c.unknown(call, "close of a label-set channel")}
 		case "panic", "recover":
 			return []LNode{c.unknown(call, "call of "+id.Name)}
-		case "len", "cap", "append", "make", "new", "copy", "string", "int", "int64", "float64", "uint64":
+		case "append":
+			out := c.args(call)
+			if len(call.Args) == 0 {
+				return out
+			}
+			base := c.typeOf(call.Args[0])
+			// append may store into the spare capacity of the array the first argument points to
+			out = append(out, c.aliasAcc(call, call.Args[0], "W")...)
+			for i, a := range call.Args[1:] {
+				if call.Ellipsis.IsValid() && i == len(call.Args)-2 {
+					if !rootIsSelector(a) { // the elements are read here
+						out = append(out, c.aliasAcc(call, a, "R")...)
+					}
+					if av := c.typeOf(a); av.t == "MetricLists" && av.sym >= 0 && base.t != "MetricLists" {
+						out = append(out, c.escapes([]ast.Expr{a}, "appended to an untracked collection")...)
+					}
+					continue
+				}
+				if base.t != "MetricLists" { // a header stored where we do not follow it
+					out = append(out, c.escapes([]ast.Expr{a}, "appended to an untracked collection")...)
+				}
+			}
+			return out
+		case "copy":
+			out := c.args(call)
+			if len(call.Args) == 2 {
+				out = append(out, c.aliasAcc(call, call.Args[0], "W")...)
+				if !rootIsSelector(call.Args[1]) {
+					out = append(out, c.aliasAcc(call, call.Args[1], "R")...)
+				}
+				if dv := c.typeOf(call.Args[0]); dv.t == "MetricLists" {
+					out = append(out, c.escapes([]ast.Expr{call.Args[1]}, "copied into a collection")...)
+				}
+			}
+			return out
+		case "len", "cap", "make", "new", "string", "int", "int64", "float64", "uint64":
 			return c.args(call)
 		}
 		// a closure bound to a parameter (Store.Range's f)
@@ -972,11 +1207,11 @@ func (c *lctx) call(call *ast.CallExpr) []LNode {
 			// package function with a matching arity that takes a metric
 			return append(c.args(call), c.inlineFormatters(call)...)
 		}
-		return c.args(call)
+		return append(c.args(call), c.escapes(call.Args, "passed to an untranslated function")...)
 	}
 	sel, ok := call.Fun.(*ast.SelectorExpr)
 	if !ok {
-		return append(c.expr(call.Fun), c.args(call)...)
+		return append(append(c.expr(call.Fun), c.args(call)...), c.escapes(call.Args, "passed to an untranslated function")...)
 	}
 	// atomic.Xxx(&d.f, ...)
 	if id, ok := sel.X.(*ast.Ident); ok && id.Name == "atomic" && len(call.Args) >= 1 {
@@ -993,12 +1228,12 @@ func (c *lctx) call(call *ast.CallExpr) []LNode {
 	}
 	// datum package API: its functions/methods are checked entries relying on no caller lock
 	if id, ok := sel.X.(*ast.Ident); ok && id.Name == "datum" {
-		return c.args(call)
+		return append(c.args(call), c.escapes(call.Args, "passed to an untranslated function")...)
 	}
 	recv := c.typeOf(sel.X)
 	switch recv.t {
 	case "Datum", "LabelSet":
-		return append(c.expr(sel.X), c.args(call)...)
+		return append(append(c.expr(sel.X), c.args(call)...), c.escapes(call.Args, "passed to an untranslated function")...)
 	case "Metric", "Store", "Int", "Float", "String", "Buckets", "BaseDatum", "Runtime":
 		pkg := "metrics"
 		if datumTypes[recv.t] {
@@ -1007,7 +1242,7 @@ func (c *lctx) call(call *ast.CallExpr) []LNode {
 		if recv.t == "Runtime" {
 			pkg = "runtime"
 			if c.x.Pkgs[pkg] == nil || c.x.Pkgs[pkg].Funcs["Runtime."+sel.Sel.Name] == nil {
-				return append(c.expr(sel.X), c.args(call)...)
+				return append(append(c.expr(sel.X), c.args(call)...), c.escapes(call.Args, "passed to an untranslated function")...)
 			}
 		}
 		tn := recv.t
@@ -1053,10 +1288,14 @@ func (c *lctx) call(call *ast.CallExpr) []LNode {
 				} else if d := c.x.Pkgs["metrics"].Funcs["Metric.String"]; d != nil && !v.fresh {
 					out = append(out, c.inline(call, "metrics", d, v, nil)...) // %v calls String()
 				}
+			case "MetricLists", "LVMap", "HandleMap":
+				out = append(out, c.escapes([]ast.Expr{a}, "passed to a reflective reader")...)
 			default:
 				out = append(out, c.reflectRead(a, v)...)
 			}
 		}
+	} else {
+		out = append(out, c.escapes(call.Args, "passed to an untranslated function")...)
 	}
 	return out
 }
@@ -1104,7 +1343,15 @@ func (c *lctx) inline(at ast.Node, pkg string, d *ast.FuncDecl, recv val, args [
 					v = val{t: "Other"}
 				} else if i < len(args) {
 					av := c.typeOf(args[i])
+					ck := containerKind(f.Type)
+					if ck != "" {
+						v = val{t: ck, sym: -1}
+					}
 					switch {
+					case ck != "" && (av.t == ck || (ck == "MetricLists" && av.t == "MetricMap")):
+						v = av // the callee works on the caller's header
+					case carriesAlias(av):
+						pre = append(pre, c.unknown(args[i], "alias of a guarded container bound to a parameter of another type"))
 					case av.t == "Closure":
 						v = av
 					case av.t == v.t || (v.t == "LV" && av.t == "LV"):
@@ -1133,9 +1380,35 @@ func (c *lctx) inline(at ast.Node, pkg string, d *ast.FuncDecl, recv val, args [
 		}
 	}
 	var defers []LNode
+	var rets []val
 	sub := &lctx{x: c.x, pkg: pkg, fn: funcKey(d), env: env, nsym: c.nsym, top: false, defers: &defers, depth: c.depth + 1,
-		emitter: &emitterInfo{chans: map[string]int{}}, hasSpawn: spawnsEmitter(d.Body)}
+		emitter: &emitterInfo{chans: map[string]int{}}, hasSpawn: spawnsEmitter(d.Body), rets: &rets}
+	if d.Type.Results != nil {
+		for _, f := range d.Type.Results.List {
+			for _, n := range f.Names {
+				sub.results = append(sub.results, n.Name)
+				if ck := containerKind(f.Type); ck != "" {
+					env.vars[n.Name] = val{t: ck, sym: -1}
+				}
+			}
+		}
+	}
 	body := sub.block(d.Body.List)
+	// what the call evaluates to, if it is a container: an alias if any return is one
+	if ce, ok := at.(*ast.CallExpr); ok {
+		delete(c.x.retTypes, ce)
+		if d.Type.Results != nil && d.Type.Results.NumFields() >= 1 {
+			var rv val
+			for _, r := range rets {
+				if carriesAlias(r) || rv.t == "" {
+					rv = r
+				}
+			}
+			if rv.t != "" {
+				c.x.retTypes[ce] = rv
+			}
+		}
+	}
 	return append(append(pre, body...), defers...)
 }
 
@@ -1152,8 +1425,14 @@ func (c *lctx) inlineClosure(at *ast.CallExpr, v val) []LNode {
 				pv := val{t: declType(f.Type)}
 				if i < len(at.Args) {
 					av := c.typeOf(at.Args[i])
+					ck := containerKind(f.Type)
+					if ck != "" {
+						pv = val{t: ck, sym: -1}
+					}
 					if av.t == pv.t {
 						pv = av
+					} else if carriesAlias(av) {
+						pre = append(pre, c.unknown(at.Args[i], "alias of a guarded container bound to a parameter of another type"))
 					}
 				}
 				if (pv.t == "Metric" || pv.t == "Store") && pv.sym <= 0 {
@@ -1217,6 +1496,7 @@ func (c *lctx) block(ss []ast.Stmt) []LNode {
 					return append(ns, mine...)
 				}
 				then := scoped(func() []LNode { return c.stmt(ifs.Body) })
+				c.env = &lenv{vars: map[string]val{}, parent: c.env, seq: true}
 				rest := scoped(func() []LNode { return c.block(ss[i+1:]) })
 				c.env = saved
 				return append(out, LNode{K: "If", Then: then, Else: rest})
@@ -1294,6 +1574,7 @@ func (c *lctx) stmt(s ast.Stmt) []LNode {
 		return c.expr(s.X)
 	case *ast.SendStmt:
 		out := append(c.expr(s.Value), c.expr(s.Chan)...)
+		out = append(out, c.escapes([]ast.Expr{s.Value}, "sent on a channel")...)
 		if _, isId := s.Chan.(*ast.Ident); isId {
 			if cv := c.typeOf(s.Chan); cv.t == "HLines" { // a vm input channel held in a local
 				out = append(out, c.acc(s, cv.sym, 15, "R")...)
@@ -1310,10 +1591,19 @@ func (c *lctx) stmt(s ast.Stmt) []LNode {
 					for _, v := range vs.Values {
 						out = append(out, c.expr(v)...)
 					}
-					for _, n := range vs.Names {
+					for i, n := range vs.Names {
 						t := val{t: "Other"}
 						if vs.Type != nil {
 							t = val{t: declType(vs.Type), fresh: declType(vs.Type) == "LV"}
+							if ck := containerKind(vs.Type); ck != "" {
+								t = val{t: ck, sym: -1}
+							}
+						}
+						if len(vs.Values) == len(vs.Names) {
+							// var ml = s.Metrics[name]: a header copy like ml := ...
+							if v := c.typeOf(vs.Values[i]); carriesAlias(v) || (vs.Type == nil && v.t != "Other" && v.t != "Metric") {
+								t = v
+							}
 						}
 						c.env.vars[n.Name] = t
 					}
@@ -1343,13 +1633,44 @@ func (c *lctx) stmt(s ast.Stmt) []LNode {
 					if s.Tok == token.DEFINE {
 						c.env.vars[id.Name] = v
 					} else if old, ok := c.env.get(id.Name); ok && (old.t != v.t || old.sym != v.sym) && v.t != "Other" {
-						// re-assignment of a typed local (oldestLV = lv): keep the owner
-						c.setVar(id.Name, v)
+						// re-assignment of a typed local (oldestLV = lv): keep the owner.  A
+						// container that may alias a guarded one stays so unless the new value
+						// replaces it on every path that goes on (same nesting).
+						if !(carriesAlias(old) && !carriesAlias(v) && !c.env.sameNest(id.Name)) {
+							c.setVar(id.Name, v)
+						}
 					}
 				}
 				continue
 			}
 			out = append(out, c.lvalue(l)...)
+			// a header stored somewhere else than a local variable
+			var rv val
+			var re ast.Expr
+			if len(s.Rhs) == len(s.Lhs) {
+				re = s.Rhs[i]
+				rv = c.typeOf(re)
+			}
+			if re != nil && carriesAlias(rv) {
+				lv := c.typeOf(l)
+				ix, isIx := l.(*ast.IndexExpr)
+				switch {
+				case lv.t == rv.t && lv.sym == rv.sym && rootIsSelector(l):
+					// s.Metrics[n] = append(s.Metrics[n], m): back into the guarded container itself
+				case isIx && rv.t == "MetricSlice":
+					// lists[k] = ml, cp[name] = ml: the local collection now aliases what ml aliases
+					if bid, ok := ix.X.(*ast.Ident); ok {
+						if bv, ok := c.env.get(bid.Name); ok && bv.t == "MetricLists" {
+							bv.sym = rv.sym
+							c.setVar(bid.Name, bv)
+							break
+						}
+					}
+					out = append(out, c.escapes([]ast.Expr{re}, "stored outside a local variable")...)
+				default:
+					out = append(out, c.escapes([]ast.Expr{re}, "stored outside a local variable")...)
+				}
+			}
 		}
 		return out
 	case *ast.DeferStmt:
@@ -1377,12 +1698,24 @@ func (c *lctx) stmt(s ast.Stmt) []LNode {
 				}
 			}
 		}
-		if _, isLit := s.Call.Fun.(*ast.FuncLit); isLit {
+		if lit, isLit := s.Call.Fun.(*ast.FuncLit); isLit {
 			// another goroutine: only the evaluation of its arguments happens here
 			var out []LNode
 			for _, a := range s.Call.Args {
 				out = append(out, c.expr(a)...)
 			}
+			out = append(out, c.escapes(s.Call.Args, "passed to another goroutine")...)
+			// ... unless it takes a header of a guarded container along
+			seen := map[string]bool{}
+			ast.Inspect(lit.Body, func(n ast.Node) bool {
+				if id, ok := n.(*ast.Ident); ok && !seen[id.Name] {
+					seen[id.Name] = true
+					if v, ok := c.env.get(id.Name); ok && carriesAlias(v) {
+						out = append(out, c.unknown(s, "alias of a guarded container captured by another goroutine: "+id.Name))
+					}
+				}
+				return true
+			})
 			return out
 		}
 		return []LNode{c.unknown(s, "go statement")}
@@ -1390,6 +1723,27 @@ func (c *lctx) stmt(s ast.Stmt) []LNode {
 		var out []LNode
 		for _, r := range s.Results {
 			out = append(out, c.expr(r)...)
+		}
+		// container headers handed to the caller
+		var rv []ast.Expr
+		if len(s.Results) > 0 {
+			rv = s.Results
+		} else {
+			for _, n := range c.results {
+				rv = append(rv, ast.NewIdent(n))
+			}
+		}
+		if c.rets == nil { // an entry (or a closure): the caller is out of sight
+			for _, r := range rv {
+				if carriesAlias(c.typeOf(r)) {
+					out = append(out, LNode{K: "Unknown", Site: c.x.site(c.fn, "unknown: returns an alias of a guarded container: "+c.p().src(s), c.p().at(s), "U")})
+				}
+			}
+		} else if len(rv) > 0 {
+			if v := c.typeOf(rv[0]); v.t == "MetricSlice" || v.t == "MetricLists" || v.t == "MetricMap" || v.t == "LVSlice" || v.t == "LVMap" || v.t == "HandleMap" {
+				*c.rets = append(*c.rets, v)
+			}
+			out = append(out, c.escapes(rv[1:], "returned as a second result")...)
 		}
 		if c.top {
 			out = append(out, LNode{K: "Return"})
@@ -1432,9 +1786,11 @@ func (c *lctx) stmt(s ast.Stmt) []LNode {
 		saved := c.env
 		c.env = &lenv{vars: map[string]val{}, parent: saved}
 		out := c.stmt(s.Init)
-		head := append(c.stmt(s.Post), c.expr(s.Cond)...)
 		c.innerLoops++
-		body := append(head, c.stmt(s.Body)...)
+		body := c.loopBody(func() []LNode {
+			head := append(c.stmt(s.Post), c.expr(s.Cond)...)
+			return append(head, c.stmt(s.Body)...)
+		})
 		c.innerLoops--
 		if !pureLoopBody(body) {
 			out = append(out, LNode{K: "Loop", Body: body, Site: c.x.site(c.fn, "loop", c.p().at(s), "L")})
@@ -1447,10 +1803,20 @@ func (c *lctx) stmt(s ast.Stmt) []LNode {
 		c.env = &lenv{vars: map[string]val{}, parent: saved}
 		out := c.expr(s.X)
 		xv := c.typeOf(s.X)
+		if !rootIsSelector(s.X) {
+			// ranging over a local header of a guarded container reads the container's
+			// elements here and at the head of every iteration (where at least the
+			// locks held here are held again, or the loop is flagged)
+			out = append(out, c.aliasAcc(s.X, s.X, "R")...)
+		}
 		var pre []LNode
 		switch xv.t {
 		case "MetricMap":
 			pre = c.bindRangeVar(s.Value, val{t: "MetricSlice", sym: xv.sym})
+		case "MetricLists":
+			pre = c.bindRangeVar(s.Value, val{t: "MetricSlice", sym: xv.sym})
+		case "HandleMap":
+			pre = c.bindRangeVar(s.Value, val{t: "Handle", sym: xv.sym})
 		case "MetricSlice":
 			pre = c.bindRangeVar(s.Value, val{t: "Metric"})
 		case "LVSlice":
@@ -1503,7 +1869,7 @@ func (c *lctx) stmt(s ast.Stmt) []LNode {
 			}
 		}
 		c.innerLoops++
-		body := append(pre, c.stmt(s.Body)...)
+		body := c.loopBody(func() []LNode { return append(append([]LNode{}, pre...), c.stmt(s.Body)...) })
 		c.innerLoops--
 		if !pureLoopBody(body) {
 			out = append(out, LNode{K: "Loop", Body: body, Site: c.x.site(c.fn, "loop", c.p().at(s), "L")})
@@ -1516,6 +1882,50 @@ func (c *lctx) stmt(s ast.Stmt) []LNode {
 		return []LNode{c.unknown(s, "label")}
 	}
 	return []LNode{c.unknown(s, "statement")}
+}
+
+// loopBody translates a loop body.  A container variable of an enclosing scope
+// that starts to alias a guarded container inside the body does so at the top
+// of the next iteration too: translate again with what the first pass found
+// out (the first result is dropped, the deferred unlocks it registered too).
+func (c *lctx) loopBody(f func() []LNode) []LNode {
+	aliased := func() map[string]bool {
+		m := map[string]bool{}
+		depth := 0
+		for s := c.env; s != nil; s = s.parent {
+			for n, v := range s.vars {
+				if carriesAlias(v) {
+					m[fmt.Sprint(depth, ":", n)] = true
+				}
+			}
+			depth++
+		}
+		return m
+	}
+	for pass := 0; ; pass++ {
+		before := aliased()
+		nd := len(*c.defers)
+		chans := map[string]int{}
+		if c.emitter != nil {
+			for k, v := range c.emitter.chans {
+				chans[k] = v
+			}
+		}
+		body := f()
+		grew := false
+		for k := range aliased() {
+			if !before[k] {
+				grew = true
+			}
+		}
+		if !grew || pass >= 3 {
+			return body
+		}
+		*c.defers = (*c.defers)[len(*c.defers)-nd:]
+		if c.emitter != nil {
+			c.emitter.chans = chans
+		}
+	}
 }
 
 // pureLoopBody: no lock operation, shared access, rebinding, return or unknown
@@ -1661,6 +2071,9 @@ func (x *LockXlate) Entry(pkg, fn string, freshParams map[string]bool) ([]LNode,
 					nsym++
 					v.sym = nsym
 				}
+				if ck := containerKind(f.Type); ck != "" {
+					v = val{t: ck, sym: -1} // the caller's own collection
+				}
 				if freshParams[n.Name] {
 					v.fresh = true
 				}
@@ -1671,5 +2084,16 @@ func (x *LockXlate) Entry(pkg, fn string, freshParams map[string]bool) ([]LNode,
 	var defers []LNode
 	c := &lctx{x: x, pkg: pkg, fn: fn, env: env, nsym: &nsym, top: true, defers: &defers,
 		emitter: &emitterInfo{chans: map[string]int{}}, hasSpawn: spawnsEmitter(d.Body)}
+	if d.Type.Results != nil {
+		for _, f := range d.Type.Results.List {
+			for _, n := range f.Names {
+				c.results = append(c.results, n.Name)
+				if ck := containerKind(f.Type); ck != "" {
+					env.vars[n.Name] = val{t: ck, sym: -1}
+				}
+			}
+		}
+	}
+	x.retTypes = map[*ast.CallExpr]val{}
 	return c.block(d.Body.List), nil
 }
